@@ -309,6 +309,8 @@ func checkC07(c *Ctx, w *World) {
 
 	// ---- C07.swap
 	checkSwap(pl)
+	// "the replacement takes over the channel (its bound keys, …)": every connection-indexed table follows the swap
+	pl.checkRetire("C07.swap-tables", func(string) bool { return true })
 }
 
 // checkWindow: the window is derived from refreshCnt and the configured period, with no arithmetic narrower than 64 bits.
